@@ -438,7 +438,7 @@ class SimDevice:
         H = bytes([CLA, 0x02])
         if op == 0x01:   # PATH
             sess = {"path": None, "tail": None, "got": {"btc": b"", "rcpt": b"", "mp": b""},
-                    "part": None, "result": None, "auth": None, "first": payload}
+                    "part": None, "result": None, "auth": None, "first": payload, "n": 1}
             if self.sign is not None:
                 self.sign["result"] = self.sign["result"] or "restarted"
                 self.sign_log.append(self.sign)
@@ -472,6 +472,13 @@ class SimDevice:
                 return self._sign_end("sw", 0x6A89)
             return 0x6A89, b""
         sess["got"][part] += payload
+        sess["n"] += 1
+        # a host that has nothing left to send must not loop for ever: like the firmware's size check,
+        # the device gives up (ERR_AUTH_INVALID_DATA_SIZE) after a few empty messages
+        if len(payload) == 0:
+            sess["empties"] = sess.get("empties", 0) + 1
+            if sess["empties"] > 3:
+                return self._sign_end("sw", 0x6A87)
         sess.setdefault("chunks", []).append((part, len(payload), sess.get("want")))
         return self._apply(self.sign_policy.decide(self, part, sess["got"][part]))
 
